@@ -20,6 +20,7 @@ from vlib import read_jsonl, canon_hash
 import stream_util as su
 
 BATCH_SIG = "batchFlowActor:window-held-without-demand"
+BATCH_BIG_SIG = "batchFlowActor:size-exceeds-demand-window"
 
 
 # ----------------------------------------------------------------------------------- generators
@@ -44,7 +45,7 @@ def gen_op(rng, ty, unordered, prev, fuse, allow_err):
         if prev and prev["k"] == "batch" and k == "buffer":
             k = "suml"
     else:
-        ks = ["map", "map", "trymap", "filter", "flatmap", "buffer", "parmap", "parmap"]
+        ks = ["map", "map", "trymap", "filter", "flatmap", "buffer", "parmap", "parmap"] + (["trymap"] * 3 if allow_err else [])
         if not unordered:
             ks += ["scan", "dedup", "batch", "batch"]
         k = rng.choice(ks)
@@ -54,7 +55,8 @@ def gen_op(rng, ty, unordered, prev, fuse, allow_err):
         o = {"k": "trymap", "a": rng.choice([1, 1, 2, -1]), "b": rng.randint(-3, 3),
              "m": rng.choice([2, 3, 5, 7, 11, 97, 1009]), "code": rng.randint(100, 999)}
         o["r"] = rng.randrange(o["m"])
-        if not allow_err:
+        if not allow_err or unordered:
+            # (behind an unordered ParallelMap the set of elements that precede a failure is not determined)
             o["m"], o["r"] = 1000003, 1000002
         if rng.random() < 0.25 and not (fuse and prev and prev["k"] in su.FUSABLE):
             o["resume"] = True
@@ -143,19 +145,24 @@ BATCH_STRESS = [
     {"input": list(range(1, 1300)), "ops": [{"k": "batch", "n": 3}, {"k": "suml"}], "fuse": False},
 ]
 
+# a batch size above the stage's demand window (224): the window can only fill up if the stage asks for enough
+BATCH_BIG = [
+    {"input": list(range(1, 701)), "ops": [{"k": "batch", "n": 300}, {"k": "suml"}], "fuse": True},
+]
+
 SIZES = [0, 1, 2, 3, 4, 5, 8, 15, 16, 17, 63, 64, 65, 159, 160, 161, 223, 224, 225, 226, 300, 448, 449, 700]
 
 
 def gen_cases(ctx):
     rng = ctx.rng
-    n = 900 if ctx.thorough else 130
+    n = 600 if ctx.thorough else 130
     cases = [dict(c) for c in CORPUS]
     while len(cases) < n:
         depth = rng.choice([0, 1, 1, 2, 2, 3, 3, 4, 5, 6, 6])
         r = rng.random()
         size = rng.choice(SIZES[:12]) if r < 0.55 else (rng.choice(SIZES) if r < 0.95 else rng.randint(0, 900))
         cases.append(gen_pipeline(rng, depth, size))
-    stress = [dict(c, stress=True) for c in BATCH_STRESS]
+    stress = [dict(c, stress=True) for c in BATCH_STRESS] + [dict(c, big=True) for c in BATCH_BIG]
     out = cases + stress
     for i, c in enumerate(out):
         c["id"] = i
@@ -234,15 +241,11 @@ def gen_par_case(rng):
             if alive and updone and not inflight:
                 alive = False
         elif r < 0.8 and not updone:
-            if rng.random() < 0.03:
-                script.append({"t": "elem", "v": [1, 2]})
-                alive = False
-            else:
-                script.append({"t": "elem", "v": nextv})
-                if alive:
-                    inseq += 1
-                    inflight.append((inseq, nextv))
-                nextv += rng.choice([1, 2, 3])
+            script.append({"t": "elem", "v": nextv})       # (ill-typed elements cannot reach a typed stage)
+            if alive:
+                inseq += 1
+                inflight.append((inseq, nextv))
+            nextv += rng.choice([1, 2, 3])
         elif r < 0.86:
             script.append({"t": "req", "n": rng.choice([1, 5, 224])})
         elif r < 0.94:
@@ -265,7 +268,7 @@ def gen_par_case(rng):
 
 def gen_step_cases(ctx):
     rng = ctx.rng
-    n = 1200 if ctx.thorough else 240
+    n = 900 if ctx.thorough else 240
     cases = [dict(c) for c in STEP_CORPUS]
     while len(cases) < n:
         kind = rng.choice(["flow"] * 5 + ["fused"] * 2 + ["batch"] * 3 + ["sink", "source"] + ["par"] * 3)
@@ -298,7 +301,7 @@ def gen_step_cases(ctx):
                 ops.append(o)
             c["ops"] = ops
         elif kind == "batch":
-            c["ops"] = [{"k": "batch", "n": rng.choice([1, 2, 3, 4])}]
+            c["ops"] = [{"k": "batch", "n": rng.randint(1, min(4, init))}]   # size <= demand window, see BATCH_BIG
         elif kind == "source":
             c["input"] = gen_input(rng, rng.choice([0, 1, 2, 5, 9]))
         malformed = rng.random() < 0.15
@@ -344,6 +347,32 @@ def coq_kind(c, orig=False):
     raise ValueError(c["kind"])
 
 
+def norm_out(out):
+    """token-aware: drop a streamComplete (11) that directly follows a streamComplete (see C45/Tie.v enc_actions)"""
+    res, i, prev = [], 0, False
+    while i < len(out):
+        t = out[i]
+        if t == 10:
+            ln = 3 if out[i + 1] == 1 else 3 + out[i + 2]
+            res += out[i:i + ln]
+            i += ln
+            prev = False
+        elif t in (12, 20):
+            res += out[i:i + 2]
+            i += 2
+            prev = False
+        elif t == 11:
+            if not prev:
+                res.append(11)
+            prev = True
+            i += 1
+        else:
+            res.append(t)
+            i += 1
+            prev = False
+    return res
+
+
 def enc_obs(r):
     """the harness's observation of one step case in the encoding of C45/Tie.v [run_steps]"""
     out = [list(r.get("wire") or [])]
@@ -351,7 +380,7 @@ def enc_obs(r):
         if s.get("state") is None and not s.get("alive"):
             out.append([0])
         else:
-            out.append([1 if s["alive"] else 0] + list(s["state"] or []) + [-7] + list(s.get("out") or []))
+            out.append([1 if s["alive"] else 0] + list(s["state"] or []) + [-7] + norm_out(list(s.get("out") or [])))
     return out
 
 
@@ -490,7 +519,7 @@ def run(ctx):
         p = os.path.join(ctx.work, fn)
         if os.path.exists(p):
             os.remove(p)
-    rc, out = ctx.go_test("stream", "^TestVerifC45", ["zz_verif_C45_test.go"], env={"VERIF_PAR": "1"}, timeout=1500 if ctx.thorough else 600)
+    rc, out = ctx.go_test("stream", "^TestVerifC45", ["zz_verif_C45_test.go"], env={"VERIF_PAR": "1"}, timeout=2400 if ctx.thorough else 1500)
     res = {r["id"]: r for r in read_jsonl(os.path.join(ctx.work, "c45_out.jsonl"))}
     sres = {r["id"]: r for r in read_jsonl(os.path.join(ctx.work, "c45_steps_out.jsonl"))}
     if rc != 0 or len(res) != len(cases) or len(sres) != len(scases):
@@ -547,7 +576,11 @@ def run(ctx):
         if why:
             bad_py[c["id"]] = why
             has_batch = any(o["k"] == "batch" for o in c["ops"])
-            if batch_defect and c.get("stress") and has_batch:
+            if c.get("big") and has_batch and why.startswith("stall"):
+                ctx.violation(BATCH_BIG_SIG, "Batch(%d) over %d elements with maxWait=1h: %s" % (c["ops"][0]["n"], len(c["input"]), why),
+                              {"pipeline": c["ops"], "input_len": len(c["input"]), "observed_items": len(r["items"]),
+                               "why": "batchFlowActor.maybeRequestUpstream never asks for more than InitialDemand(224) - len(window) elements, so a window of 300 never fills"})
+            elif batch_defect and c.get("stress") and has_batch:
                 n_batch += 1
                 if n_batch > 3:
                     continue
@@ -624,7 +657,7 @@ Eval vm_compute in (%s).
     ctx.log("model evaluation done")
     # ---- theorems
     if not ctx.coq_property():
-        if not any(f.kind == "violation" and f.signature != BATCH_SIG for f in ctx.findings):
+        if not any(f.kind == "violation" and f.signature not in (BATCH_SIG, BATCH_BIG_SIG) for f in ctx.findings):
             ctx.proof_broken("Properties/C45.v (%s)" % getattr(ctx, "failed_at", "?"), getattr(ctx, "coq_log", ""))
         else:
             ctx.notes.append("Coq obligation broken at %s; concrete failing input reported" % getattr(ctx, "failed_at", "?"))
@@ -660,11 +693,24 @@ Eval vm_compute in (%s).
 
 THEOREMS = ["C45_sink_receives_list_semantics", "C45_first_stage_error_ends_the_stream", "C45_any_materialisation",
             "C45_plan_keeps_operators", "C45_sem_map", "C45_sem_filter", "C45_sem_flatmap", "C45_sem_scan", "C45_sem_buffer",
-            "C45_sem_batch_then_flatten", "C45_sem_batch_chunks", "C45_batch_before_repair_refuted"]
+            "C45_sem_batch_then_flatten", "C45_sem_batch_chunks", "C45_batch_before_repair_refuted",
+            "C45_parallel_unordered_is_a_permutation", "C45_flow_never_emits_beyond_demand"]
 
 META = {
+    "ready": True,
     "category": "proof",
-    "technique": "Rocq proof over a hand-written operational model of the stage actors + black-box and actor-step conformance",
-    "text": "see final report",
+    "technique": "Rocq proof over a hand-written operational model of the stage actors (chains of any length, every interleaving) + black-box and actor-step conformance",
+    "text": "Operational model of pull source, flowActor, fusedFlowActor, batchFlowActor, ordered/unordered parallelMapActor and sinkActor "
+            "(message handlers mirroring the Go Receive methods, demand ledger, output buffer, completing flag, resequencing heap) composed into a chain "
+            "of ANY length with FIFO links; for every interleaving of actor steps the sink holds a prefix of the list semantics, at normal completion "
+            "exactly the list semantics, at most/exactly one terminal signal, and an error termination carries the error of a stage that fails under the "
+            "list semantics (C45_sink_receives_list_semantics, C45_first_stage_error_ends_the_stream, C45_any_materialisation); stage fusion keeps the "
+            "operators; sem is the familiar list function per operator; ParallelMap emits a permutation (stage-level); flowActor never emits beyond demand. "
+            "Every run: ~130 generated pipelines (depth 0..6, sizes around the demand window 224 / refill 64) through the public API on a real ActorSystem "
+            "judged by the Coq sem via vm_compute and by an independent Python list semantics; ~240 message scripts driven through the REAL stage actors "
+            "between probe actors (parallel stage with scripted worker completion order), every step's outgoing messages and ledger compared with the Coq handlers.",
     "design_ref": "DESIGN.md 7/C45",
+    "level_note": "Trusted: Coq kernel, the Go harness (pipeline builder, probes, encodings), the actor runtime's per-sender FIFO and Shutdown semantics (modelled as FIFO links / stopped actors never step). "
+                  "Not proved: liveness (that a terminal signal eventually arrives) - checked on every run by the timeout-confirmed stall oracle; unordered ParallelMap inside a chain (stage-level theorem only); "
+                  "Batch maxWait timer, Throttle, FlatMapConcat/Merge, external Stop/Abort are outside the model.",
 }
